@@ -51,6 +51,16 @@ def evaluate(ck, recs, tag="uni"):
         fb = u["obsB"][-1]["heights"][1] if u["obsB"] else u["gh"]
         if max(fa, fb) > u["gh"] + nc and u["a"] and u["b"]:
             ck.nontrivial(json.dumps([u["common"], u["a"], u["b"]], sort_keys=True))
+        # chain switch on one node (one module instance, reverted store) must give the view of a fresh node on the same chain
+        sw = u.get("obsSwitch") or []
+        if sw and sw != u["obsB"][nc:nc + len(sw)]:
+            f = dict(kind="history", key="c01:switch", case={k: u[k] for k in ("k", "batch", "gh", "init", "common", "a", "b")},
+                     what="after applying common+A and reverting A, the node's BFT view of common+B differs from a fresh node's view of "
+                          "the same chain (the view must be a function of the header chain alone)",
+                     observed={"fresh": u["obsB"][nc:nc + len(sw)][:3], "switched": sw[:3]},
+                     theorem_or_correspondence="C02_same_chain_same_view on the implementation (chain-switch oracle)")
+            f["spec_violated"] = True
+            ck.failures.append(f)
         if code == 0:
             continue
         inp = {k: u[k] for k in ("k", "batch", "gh", "init", "common", "a", "b")}
